@@ -15,9 +15,12 @@
 //!               referenced module, a package behind it and an unreferenced module, alias-only
 //!               file, embed-only file, empty and comment-only files, `$std` (thorough) — under all
 //!               27 configurations;
-//!  * `layout`   collision layouts (same stem in two directories, two `sources` roots, dependency
-//!               file with the same relative path, example with the stem of a source) under all
-//!               9 target x sourcemap_target settings.
+//!  * `layout`   collision layouts (same stem in two directories, two `sources` roots, example with
+//!               the stem of a source, and the dependency grid: {1, 2} path dependencies x
+//!               {alias == the dependency's own `[project]` name, alias != it — for two
+//!               dependencies: both vendored copies carry the SAME `[project]` name under two
+//!               aliases}, every dependency holding a file with the same project-relative path as
+//!               a root source) under all 9 target x sourcemap_target settings.
 //!
 //! Oracle (from the abstract project only): the filelist has no duplicate line; its lines are
 //! exactly the emitted `.sv` files; for every reference edge u -> v the line of v's file precedes
@@ -287,14 +290,34 @@ fn extras_case(which: &str, cfg: Cfg) -> Case {
     c
 }
 
-pub const LAYOUTS: [&str; 6] = ["same-stem-two-dirs", "two-source-roots-same-stem", "two-source-roots-distinct", "dependency-same-relpath", "example-same-stem", "nested-dirs-distinct"];
+pub const LAYOUTS: [&str; 9] = [
+    "same-stem-two-dirs",
+    "two-source-roots-same-stem",
+    "two-source-roots-distinct",
+    "dependency-same-relpath",
+    "dependency-alias-differs-from-project-name",
+    "two-dependencies-distinct-project-names-same-relpath",
+    "two-aliases-same-project-name-same-relpath",
+    "example-same-stem",
+    "nested-dirs-distinct",
+];
+
+/// The dependency grid of the `layout` family: (layout, [(alias, directory, `[project]` name)]).
+/// Every dependency holds `src/foo.veryl` (the relative path of the root's own source).
+const DEP_LAYOUTS: [(&str, &[(&str, &str, &str)]); 4] = [
+    ("dependency-same-relpath", &[("dep", "d", "dep")]),
+    ("dependency-alias-differs-from-project-name", &[("al", "d", "util")]),
+    ("two-dependencies-distinct-project-names-same-relpath", &[("da", "d1", "da"), ("db", "d2", "db")]),
+    ("two-aliases-same-project-name-same-relpath", &[("u1", "d1", "util"), ("u2", "d2", "util")]),
+];
 
 fn layout_case(which: &str, cfg: Cfg) -> Case {
     let m = |name: &str| format!("module {name} (\n    i_a: input  logic<4>,\n    o_a: output logic<4>,\n) {{\n    assign o_a = i_a;\n}}\n");
     let mut srcs: Vec<Src> = vec![];
     let mut other = vec![];
     let mut sources = vec!["src"];
-    let mut deps: Vec<(&str, &str)> = vec![];
+    let mut dep_specs: Vec<(String, String)> = vec![];
+    let mut edges = vec![];
     let mut add = |rel: &str, body: String, example: bool, class: &'static str| {
         let k = srcs.len();
         srcs.push(Src { rel: rel.to_string(), text: format!("{}{}", marker(k), body), example, class });
@@ -314,16 +337,24 @@ fn layout_case(which: &str, cfg: Cfg) -> Case {
             add("p/rtl/foo.veryl", m("FooA"), false, "normal");
             add("p/tb/bar.veryl", m("FooB"), false, "normal");
         }
-        "dependency-same-relpath" => {
-            deps.push(("dep", "../d"));
-            other.push(("d/Veryl.toml".to_string(), "[project]\nname = \"dep\"\nversion = \"0.1.0\"\n\n[build]\nclock_type = \"posedge\"\nreset_type = \"async_low\"\nexclude_std = true\nsources = [\"src\"]\ntarget = {type = \"directory\", path = \"target\"}\n".to_string()));
-            add("d/src/foo.veryl", format!("pub {}", m("Foo")), false, "dependency");
-            add(
-                "p/src/foo.veryl",
-                "module Foo (\n    i_a: input  logic<4>,\n    o_a: output logic<4>,\n) {\n    inst u: dep::Foo (\n        i_a: i_a,\n        o_a: o_a,\n    );\n}\n".to_string(),
-                false,
-                "normal",
-            );
+        w if DEP_LAYOUTS.iter().any(|(l, _)| *l == w) => {
+            let spec = DEP_LAYOUTS.iter().find(|(l, _)| *l == w).unwrap().1;
+            let mut insts = String::new();
+            for (i, (alias, dir, project)) in spec.iter().enumerate() {
+                dep_specs.push((alias.to_string(), format!("../{dir}")));
+                other.push((
+                    format!("{dir}/Veryl.toml"),
+                    format!("[project]\nname = \"{project}\"\nversion = \"0.1.0\"\n\n[build]\nclock_type = \"posedge\"\nreset_type = \"async_low\"\nexclude_std = true\nsources = [\"src\"]\ntarget = {{type = \"directory\", path = \"target\"}}\n"),
+                ));
+                add(&format!("{dir}/src/foo.veryl"), format!("pub {}", m("Foo")), false, "dependency");
+                let (inp, outp) = if i == 0 { ("i_a".to_string(), if spec.len() == 1 { "o_a".to_string() } else { "w0".to_string() }) } else { ("w0".to_string(), "o_a".to_string()) };
+                insts.push_str(&format!("    inst x{i}: {alias}::Foo (\n        i_a: {inp},\n        o_a: {outp},\n    );\n"));
+            }
+            let wire = if spec.len() > 1 { "    var w0: logic<4>;\n" } else { "" };
+            add("p/src/foo.veryl", format!("module Foo (\n    i_a: input  logic<4>,\n    o_a: output logic<4>,\n) {{\n{wire}{insts}}}\n"), false, "normal");
+            for i in 0..spec.len() {
+                edges.push((spec.len(), i, "module.inst(dependency)".to_string()));
+            }
         }
         "example-same-stem" => {
             add("p/src/foo.veryl", m("FooA"), false, "normal");
@@ -336,10 +367,7 @@ fn layout_case(which: &str, cfg: Cfg) -> Case {
         }
         _ => unreachable!(),
     }
-    let mut edges = vec![];
-    if which == "dependency-same-relpath" {
-        edges.push((1usize, 0usize, "module.inst(dependency)".to_string()));
-    }
+    let deps: Vec<(&str, &str)> = dep_specs.iter().map(|(a, b)| (a.as_str(), b.as_str())).collect();
     Case { family: "layout", label: which.to_string(), cfg, toml: root_toml(cfg, &sources, &deps, true), other, srcs, edges, uses_std: false }
 }
 
@@ -358,7 +386,7 @@ struct Outcome {
 }
 
 fn write_case(sb: &Sandbox, c: &Case) {
-    for d in ["p", "d"] {
+    for d in ["p", "d", "d1", "d2"] {
         let _ = std::fs::remove_dir_all(sb.root.join(d));
     }
     std::fs::create_dir_all(sb.root.join("p")).unwrap();
